@@ -229,6 +229,7 @@ func c12Exchange(ctx *Ctx, srv *c12Server, cp **Client, lane string, cmds [][]st
 		}
 	}
 	ctx.Eval(1)
+	ctx.Sample(lane, map[string]interface{}{"commands": cmds, "cuts": cuts})
 	for i, argv := range cmds {
 		want := expectedReplies(argv)
 		got := 0
@@ -478,6 +479,7 @@ func c12Broken(ctx *Ctx, srv *c12Server, i int) bool {
 	conn.Close()
 	ctx.Eval(1)
 	ctx.Class("broken|" + kind)
+	ctx.Sample("broken|"+kind, map[string]interface{}{"frame": trunc(string(frame), 200), "answer": trunc(string(rest), 200)})
 	if len(rest) > 0 {
 		if _, err := resp.ParseAll(rest); err != nil && err.Error() != "" && !strings.Contains(err.Error(), "incomplete") {
 			ctx.Violate(Violation{Kind: "malformed_reply", Lane: "broken", What: fmt.Sprintf("after a %s frame %q the server sent bytes that are not well-formed RESP: %q (%v)", kind, trunc(string(frame), 80), trunc(string(rest), 120), err),
